@@ -182,7 +182,16 @@ fn run_case(sh: &mut Shard, case: u64, rng: &mut Rng, alias: u16) {
         if changed.iter().any(|w| *w != 4 && *w != 7) {
             problems.push(format!("other-words-changed:{:?}", changed));
         }
-        if cmd_errors == 0 {
+        // "retrying a word while the device reports a command error": a device that refuses a few
+        // times and then accepts must end up with exactly the same content (the statement fixes no
+        // number for the bound, so nothing is demanded about 19..25 errors beyond the upper bound)
+        if cmd_errors <= 3 {
+            if cmd_errors > 0 {
+                sh.count("retried_and_stored");
+                if attempts != 2 + cmd_errors as u64 {
+                    problems.push(format!("retry-count:{attempts} write commands for two words after {cmd_errors} command errors"));
+                }
+            }
             if after[8..10] != alias.to_le_bytes() {
                 problems.push(format!("alias-word:holds {} want {:04x}", hex(&after[8..10]), alias));
             }
@@ -221,7 +230,13 @@ fn run_case(sh: &mut Shard, case: u64, rng: &mut Rng, alias: u16) {
                 return;
             }
         }
-        if cmd_errors == 0 {
+        if cmd_errors <= 3 {
+            if cmd_errors > 0 && wlen > 0 {
+                sh.count("retried_and_stored");
+                if attempts != wlen.div_ceil(2) as u64 + cmd_errors as u64 {
+                    sh.violation("C14:generic:retry-count", format!("{attempts} write commands for {} words after {cmd_errors} command errors", wlen.div_ceil(2)), scenario.clone());
+                }
+            }
             let mut want = before.clone();
             let a = wword as usize * 2;
             want[a..a + wlen].copy_from_slice(&payload);
